@@ -10,8 +10,8 @@ from . import c03 as A
 
 ID = 'C08'
 TITLE = 'timeseries operators equal the pointwise operation on aligned operands'
-LEAN_FILES = ['Basic', 'TSBasic', 'Fill', 'FillDriver', 'Align', 'AlignDriver', 'Ops', 'OpsF', 'OpsX', 'OpsDriver', 'FillLemmas', 'AlignLemmas', 'OpsLemmas',
-              'OpsFLemmas', 'OpsXLemmas', 'C08']
+LEAN_FILES = ['Basic', 'TSBasic', 'Fill', 'FillDriver', 'Align', 'AlignDriver', 'Ops', 'OpsF', 'OpsX', 'OpsFX', 'OpsDriver', 'FillLemmas', 'AlignLemmas', 'OpsLemmas',
+              'OpsFLemmas', 'OpsXLemmas', 'OpsFXLemmas', 'C08']
 RULE = ('distinct protocol lines (operator / aggregate, operands, index policy, fill method) on which the implementation returned a '
         'value and at least two Series / DataFrame operands are involved')
 TRUSTED = ['correspondence harness (pv.engine, pv.proto, pv.props._w5ts) and generators of pv.props.c08',
@@ -34,6 +34,7 @@ MEANV = [0.0, 0.75, 1.5, -0.75, 3.0, 2.25]
 OPS = ['add', 'sub', 'mul', 'div']
 HOWS = ['ij', 'oj', 'ij', 'oj', 'lj', 'rj']
 METHODS = ['N', 'N', 'ffill', 'bfill']
+CHS = ['ij', 'oj', 'ij', 'oj', 'lj', 'rj']          # column policies: the two of the quantifier, and first / last frame's columns
 
 
 # ------------------------------------------------------------------ wire
@@ -78,6 +79,10 @@ def enc_q(v):
 def enc_out(r, sort_columns=False):
     if r is None:
         return 'N'
+    if isinstance(r, pd.DataFrame) and r.shape[1] > 0 and all(dt == bool for dt in r.dtypes):
+        return '(bdf (T (L%s) (D%s)))' % (''.join(' ' + W.enc_t(t) for t in r.index),
+                                          ''.join(' (%s (L%s))' % (proto.hexs(str(r.columns[j])), ''.join(' true' if v else ' false' for v in r.iloc[:, j].values))
+                                                  for j in range(r.shape[1])))
     if isinstance(r, pd.DataFrame):
         cols = list(range(r.shape[1]))
         if sort_columns:        # the aggregates: the order of the joint columns is pandas' business (Index.union / intersection)
@@ -155,7 +160,7 @@ def gen_frames(rng, tier):
     n = 700 if tier == 'quick' else 16000
     for _ in range(n):
         op = rng.choice(OPS)
-        how, m, ch = rng.choice(HOWS), rng.choice(METHODS), rng.choice(['ij', 'oj'])
+        how, m, ch = rng.choice(HOWS), rng.choice(METHODS), rng.choice(CHS)
         shape = rng.choice(['df-df', 'df-df', 'df-df', 'df-df', 'df-ts', 'ts-df', 'df-num', 'num-df', 'df1-df', 'df-df1', 'df1-df1', 'df1-ts', 'ts-df1',
                             'df1-num', 'list-none', 'list-none', 'list-df', 'df-list', 'mix-list'])
         k = 2 if '-list' not in shape and 'list-' not in shape else rng.choice([3, 3, 4])
@@ -291,10 +296,94 @@ def gen_others(rng, tier):
             yield dict(tag='pow/%s/%s/%s/%s' % (shape, rel, how, m), lines=['(ops pow %s %s %s %s)' % (enc_in(a), enc_in(b), how, m)])
 
 
+FSHAPES = ['df-df', 'df-df', 'df-df', 'df-df', 'df-ts', 'ts-df', 'df-num', 'num-df', 'df1-df', 'df-df1', 'df1-df1', 'df1-ts', 'ts-df1', 'df1-num']
+
+
+def gen_others_frames(rng, tier):
+    """pow_ and the comparisons with DataFrame operands (the presync column loop with default = nan)"""
+    n = 400 if tier == 'quick' else 9000
+    for _ in range(n):
+        kind = rng.choice(['cmpf', 'cmpf', 'powf'])
+        how, m, ch = rng.choice(HOWS), rng.choice(METHODS), rng.choice(CHS)
+        shape = rng.choice(FSHAPES)
+        days, rel = rand_fdays(rng, 2)
+        cs, crel = rand_colsets(rng, 2)
+
+        def mk(kind_, j, vals, nums):
+            if kind_ == 'df':
+                return rand_frame(rng, days[j], vals, cs[j])
+            if kind_ == 'df1':
+                return rand_frame(rng, days[j], vals, rng.choice(ONECOL))
+            if kind_ == 'ts':
+                return rand_series(rng, days[j], vals)
+            return rng.choice(nums)
+        ka, kb = shape.split('-')
+        if kind == 'cmpf':
+            cv = [0.0, 1.0, 1.0, -1.0, 2.0, 0.5]
+            nums = [0.0, 1.0, 2.0, -0.5, 1, 0.25, nan]
+            a, b = mk(ka, 0, cv, nums), mk(kb, 1, cv, nums)
+            yield dict(tag='cmpf/%s/%s/%s/%s/%s/%s' % (shape, rel, crel, how, m, ch),
+                       lines=['(ops cmpf %s %s %s %s %s %s)' % (rng.choice(['gt', 'ge', 'lt', 'le']), enc_in(a), enc_in(b), how, m, ch)])
+        else:
+            a, b = mk(ka, 0, POWB, POWB + [nan, 1]), mk(kb, 1, POWE, POWE + [nan, 1, 3])
+            yield dict(tag='powf/%s/%s/%s/%s/%s/%s' % (shape, rel, crel, how, m, ch), lines=['(ops powf %s %s %s %s %s)' % (enc_in(a), enc_in(b), how, m, ch)])
+
+
+def gen_mm_frames(rng, tier):
+    """min_ / max_ over scalars, Series and frames with several columns (df_sync of all operands, then the left fold)"""
+    n = 300 if tier == 'quick' else 7000
+    for _ in range(n):
+        how, m, ch = rng.choice(HOWS), rng.choice(METHODS), rng.choice(CHS)
+        shape = rng.choice(['df-df', 'df-df', 'df-df', 'df-ts', 'ts-df', 'df-num', 'num-df', 'list-none', 'list-none', 'df-list', 'list-df'])
+        k = 2 if 'list' not in shape else rng.choice([3, 3, 4])
+        days, rel = rand_fdays(rng, k)
+        cs, crel = rand_colsets(rng, k)
+        num = lambda: rng.choice([0.0, 1.0, 2.0, -0.5, 4.0, 1, 0.25, nan])
+
+        def mk(kind, j):
+            return rand_frame(rng, days[j], VALS, cs[j]) if kind == 'df' else rand_series(rng, days[j], VALS) if kind == 'ts' else num()
+        if 'list' in shape:
+            kinds = [rng.choice(['df', 'df', 'ts', 'num']) for _ in range(k)]
+            kinds[rng.randrange(k)] = 'df'
+            if 'ts' in kinds and ch == 'ij' and rng.random() < 0.9:
+                cs = [c if 'b' in c else ['b', 'c'] for c in cs]     # mostly keep a common column: a frame without columns beside a Series raises
+            xs = [mk(kinds[j], j) for j in range(k)]
+            a, b = (xs, None) if shape == 'list-none' else (xs[0], xs[1:]) if shape == 'df-list' else (xs[:-1], xs[-1])
+        else:
+            ka, kb = shape.split('-')
+            a, b = mk(ka, 0), mk(kb, 1)
+        yield dict(tag='mmf/%s/%s/%s/%s/%s/%s' % (shape, rel, crel, how, m, ch),
+                   lines=['(ops mmf %s %s %s %s %s %s)' % (rng.choice(['min', 'max']), enc_in(a), enc_in(b), how, m, ch)])
+
+
+MMX = ['df1x+df1y', 'df1x+df1y', 'df1x+df1x', 'df1+df', 'df1+ts', 'df1+num', 'dfab+dfxy+ts', 'dfab+dfxy+num']
+
+
+def gen_mm_mixed(rng, tier):
+    """min_ / max_ with ONE-column frames, and frames without a common column beside a Series: not in the Lean model (the driver
+    answers bad-op), the statement is checked directly (check_mm_mixed); known finding C08-A2 lives here"""
+    n = 80 if tier == 'quick' else 2000
+    for _ in range(n):
+        shape = rng.choice(MMX)
+        days, rel = rand_fdays(rng, 3)
+        ts = lambda j: rand_series(rng, days[j], VALS)
+        df = lambda j, names: rand_frame(rng, days[j], VALS, names)
+        xs = {'df1x+df1y': lambda: [df(0, ['x']), df(1, ['y'])], 'df1x+df1x': lambda: [df(0, ['x']), df(1, ['x'])],
+              'df1+df': lambda: [df(0, ['z']), df(1, rng.choice(COLSETS))], 'df1+ts': lambda: [df(0, ['z']), ts(1)],
+              'df1+num': lambda: [df(0, ['z']), rng.choice(VALS)], 'dfab+dfxy+ts': lambda: [df(0, ['a', 'b']), df(1, ['x', 'y']), ts(2)],
+              'dfab+dfxy+num': lambda: [df(0, ['a', 'b']), df(1, ['x', 'y']), rng.choice(VALS)]}[shape]()
+        if rng.random() < 0.5:
+            xs = xs[::-1]
+        yield dict(tag='mmx/%s' % shape, lines=['(ops mmx %s %s)' % (rng.choice(['min', 'max']), enc_in(xs))])
+
+
 def generate(rng, tier):
+    yield from gen_mm_frames(rng, tier)
+    yield from gen_mm_mixed(rng, tier)
     yield from gen_series(rng, tier)
     yield from gen_frames(rng, tier)
     yield from gen_others(rng, tier)
+    yield from gen_others_frames(rng, tier)
 
 
 def gen_series(rng, tier):
@@ -397,6 +486,29 @@ def run_line(state, sx):
         if not A.same_tree([a, b], before):
             return 'violation input-modified'
         return 'ok ' + enc_out(res)
+    if op == 'powf':
+        a, b = dec_in(args[0]), dec_in(args[1])
+        before = A.snapshot_tree([a, b])
+        res = _fn('pow_')(a, b, join=args[2], method=A.dec_method(args[3]), columns=args[4])
+        if not A.same_tree([a, b], before):
+            return 'violation input-modified'
+        return 'ok ' + enc_out(res)
+    if op == 'cmpf':
+        a, b = dec_in(args[1]), dec_in(args[2])
+        before = A.snapshot_tree([a, b])
+        res = _fn(args[0] + '_')(a, b, join=args[3], method=A.dec_method(args[4]), columns=args[5])
+        if not A.same_tree([a, b], before):
+            return 'violation input-modified'
+        if isinstance(res, pd.Series) and len(res) == 0:
+            return 'ok (bts (L))'                # no common column: `pd.Series({})`, an empty Series of no particular dtype
+        return 'ok ' + enc_out(res)
+    if op == 'mmf':
+        a, b = dec_in(args[1]), dec_in(args[2])
+        before = A.snapshot_tree([a, b])
+        res = _fn(args[0] + '_')(a, b, join=args[3], method=A.dec_method(args[4]), columns=args[5])
+        if not A.same_tree([a, b], before):
+            return 'violation input-modified'
+        return 'ok ' + enc_out(res, sort_columns=True)
     if op == 'aggf':
         xs = dec_in(args[1])
         before = A.snapshot_tree(xs)
@@ -404,6 +516,9 @@ def run_line(state, sx):
         if not A.same_tree(xs, before):
             return 'violation input-modified'
         return 'ok ' + enc_out(res, sort_columns=True)
+    if op == 'mmx':        # min_ / max_ with one-column frames: checked against the statement itself
+        bad = check_mm_mixed(args[0], dec_in(args[1]))
+        return 'violation ' + bad if bad else 'ok mmx-checked'
     if op == 'aggx':       # aggregates over mixed operands: checked against the statement itself
         bad = check_agg_mixed(args[0], dec_in(args[1]))
         return 'violation ' + bad if bad else 'ok aggx-checked'
@@ -414,12 +529,12 @@ def run_line(state, sx):
 
 
 def compare(case, i, line, ir, mr):
-    if line.startswith('(ops frames ') or line.startswith('(ops aggx '):
+    if line.startswith('(ops frames ') or line.startswith('(ops aggx ') or line.startswith('(ops mmx '):
         return ir if ir.startswith('violation') else None
     if proto.same_reply(ir, mr):
         # same_reply compares (D ..) nodes as sets: the ORDER of the result columns of the operators (theorems
         # binopF_columns_sorted / "the common header in its own order") is compared here; the aggregates' order is pandas' business
-        if line.startswith('(ops binf ') and _header(ir) != _header(mr):
+        if line.startswith(('(ops binf ', '(ops powf ', '(ops cmpf ')) and _header(ir) != _header(mr):
             return ('divergence', 'same frame, columns in the order %s; the model gives %s' % (_header(ir), _header(mr)))
         return None
     if ir.startswith('violation'):
@@ -430,7 +545,7 @@ def compare(case, i, line, ir, mr):
 
 
 def _header(reply):
-    if not reply.startswith('ok (df '):
+    if not reply.startswith(('ok (df ', 'ok (bdf ')):
         return None
     sx = proto.parse(reply[3:])
     return [proto.unhex(kv[0]) for kv in sx[1][2][1:]]
@@ -476,7 +591,7 @@ def check_frames(op, fa, fb, how, cols):
         res = f(fa, fb, join=how, columns=cols)
     except Exception as e:
         return '%s_ on DataFrames raised %s: %s' % (op, type(e).__name__, str(e)[:100])
-    want_cols = sorted(set(ca) & set(cb)) if cols == 'ij' else sorted(set(ca) | set(cb))
+    want_cols = want_columns(ca, cb, cols)
     idx = A.expected_index([fa, fb], how)
     if not want_cols:
         return None
@@ -495,6 +610,48 @@ def check_frames(op, fa, fb, how, cols):
             vals = [nan if _isnan(v) else (PYOP[op](v, NEUTRAL[op]) if isinstance(x, pd.Series) else PYOP[op](NEUTRAL[op], v)) for v in sv]
         if not A.same_vals(list(map(float, res[c].values)), vals):
             return 'column %s: got %s, the statement gives %s' % (c, list(res[c].values), vals)
+    return None
+
+
+def want_columns(ca, cb, cols):
+    return sorted(set(ca) & set(cb) if cols == 'ij' else set(ca) | set(cb) if cols == 'oj' else ca if cols == 'lj' else cb)
+
+
+def _py_pow(x, y):
+    return 1.0 if (y == 0 or x == 1) else nan if (_isnan(x) or _isnan(y)) else x ** y
+
+
+XOPS = {'pow': _py_pow,
+        'gt': lambda x, y: not (_isnan(x) or _isnan(y)) and x > y, 'ge': lambda x, y: not (_isnan(x) or _isnan(y)) and x >= y,
+        'lt': lambda x, y: not (_isnan(x) or _isnan(y)) and x < y, 'le': lambda x, y: not (_isnan(x) or _isnan(y)) and x <= y,
+        'min': lambda x, y: nan if (_isnan(x) or _isnan(y)) else min(x, y), 'max': lambda x, y: nan if (_isnan(x) or _isnan(y)) else max(x, y)}
+
+
+def check_frames_x(name, fa, fb, how, cols):
+    """the statement for pow_ / a comparison / min_ / max_ of two DataFrames: joint index, column policy, cell (t, c) = the
+    pointwise function of the two cells, a cell that a frame does not have (no row, no such column) being NaN"""
+    ca, cb = list(fa.columns), list(fb.columns)
+    try:
+        res = _fn(name + '_')(fa, fb, join=how, columns=cols)
+    except Exception as e:
+        return '%s_ on DataFrames raised %s: %s' % (name, type(e).__name__, str(e)[:100])
+    want_cols = want_columns(ca, cb, cols)
+    idx = A.expected_index([fa, fb], how)
+    if not want_cols and name not in ('min', 'max'):
+        return None
+    if not isinstance(res, pd.DataFrame):
+        return 'result is a %s' % type(res).__name__
+    if sorted(res.columns) != want_cols or list(res.index) != list(idx):
+        return 'columns %s / index %s instead of %s / %s' % (list(res.columns), [t.day for t in res.index], want_cols, [t.day for t in idx])
+    f = XOPS[name]
+    for c in want_cols:
+        va = A.expected_series(fa[c], idx, None) if c in ca else [nan] * len(idx)
+        vb = A.expected_series(fb[c], idx, None) if c in cb else [nan] * len(idx)
+        want = [f(x, y) for x, y in zip(va, vb)]
+        got = list(res[c].values)
+        ok = (got == want) if name in ('gt', 'ge', 'lt', 'le') else A.same_vals(list(map(float, got)), [float(w) for w in want])
+        if not ok:
+            return 'column %s: got %s, the statement gives %s' % (c, got, want)
     return None
 
 
@@ -535,6 +692,57 @@ def check_agg_mixed(g, xs):
         if not has and shows and g != 'count':
             return 'df_%s: the row of day %d holds a value although no operand has data there' % (g, t.day)
     return None
+
+
+def check_mm_mixed(name, xs):
+    """min_ / max_ (default policies: inner index, common columns) over any mix of one-column frames, frames, Series and scalars:
+    the result lives on the common index; each of its columns is a column of the frames with several columns (or the one value
+    column when there is none), and cell (t, c) is the pointwise min / max of what every operand shows there - a one-column
+    frame and a Series their value at t whatever the column, a scalar itself - NaN if any of them is NaN"""
+    pds = [x for x in xs if isinstance(x, (pd.Series, pd.DataFrame))]
+    try:
+        res = _fn(name + '_')(xs)
+    except Exception as e:
+        return '%s_ raised %s: %s' % (name, type(e).__name__, str(e)[:100])
+    idx = A.expected_index(pds, 'ij')
+    if not isinstance(res, (pd.Series, pd.DataFrame)):
+        return '%s_ returned a %s' % (name, type(res).__name__)
+    if list(res.index) != list(idx):
+        return '%s_: index %s, the common index is %s' % (name, [str(t)[:10] for t in res.index], [t.day for t in idx])
+    multi = [x for x in pds if isinstance(x, pd.DataFrame) and x.shape[1] > 1]
+    cols = sorted(set.intersection(*[set(x.columns) for x in multi])) if multi else [None]
+    got_cols = sorted(res.columns) if isinstance(res, pd.DataFrame) else [None]
+    if multi and got_cols != cols:
+        return '%s_: columns %s, the common columns are %s' % (name, got_cols, cols)
+    if not multi and len(got_cols) != 1:
+        return '%s_ of one-column operands has the columns %s (%s)' % (name, got_cols, enc_out(res, True))
+    f = XOPS[name]
+    for c, gc in zip(cols, got_cols):
+        want = None
+        for x in xs:
+            if isinstance(x, pd.DataFrame):
+                v = A.expected_series(x[c] if x.shape[1] > 1 else x.iloc[:, 0], idx, None)
+            elif isinstance(x, pd.Series):
+                v = A.expected_series(x, idx, None)
+            else:
+                v = [float(x)] * len(idx)
+            want = v if want is None else [f(p, q) for p, q in zip(want, v)]
+        got = list(map(float, (res[gc] if isinstance(res, pd.DataFrame) else res).values))
+        if not A.same_vals(got, want):
+            return '%s_: column %s holds %s, the statement gives %s' % (name, gc, got, want)
+    return None
+
+
+def mm_one_column_frames(f):
+    """C08-A2: min_ / max_ whose operands hold two one-column frames of different names (np.minimum aligns them BY NAME), or
+    frames without a common column beside a Series (`_align_columns` concatenates zero copies of the Series)"""
+    line = f.case['lines'][0]
+    if not line.startswith('(ops mmx '):
+        return False
+    ts, one, multi = _kinds(proto.parse(line)[3])
+    sx = proto.parse(line)[3]
+    heads = [set(kv[0] for kv in x[1][2][1:]) for x in sx[1:] if x[0] == 'df' and len(x[1][2]) > 2]
+    return len(set(one)) >= 2 or (ts >= 1 and len(heads) >= 2 and not set.intersection(*heads))
 
 
 def _kinds(sx):
@@ -601,14 +809,14 @@ def laws(rng, tier, ctx):
         ca, cb = rng.choice([['a', 'b'], ['a', 'b', 'c'], ['b', 'c']]), rng.choice([['a', 'b'], ['b', 'c'], ['b', 'd'], ['c', 'a']])
         fa = pd.DataFrame({c: rand_series(rng, days_a, VALS).values for c in ca}, index=pd.DatetimeIndex([W.day(d) for d in days_a]), columns=ca, dtype=float)
         fb = pd.DataFrame({c: rand_series(rng, days_b, DIVS if op == 'div' else VALS).values for c in cb}, index=pd.DatetimeIndex([W.day(d) for d in days_b]), columns=cb, dtype=float)
-        how, cols = rng.choice(['ij', 'oj']), rng.choice(['ij', 'oj'])
+        how, cols = rng.choice(['ij', 'oj']), rng.choice(['ij', 'oj', 'ij', 'oj', 'lj', 'rj'])
         case = dict(tag='law-frames', lines=['(ops frames %s %s %s %s %s)' % (op, W.enc_frame(fa, S), W.enc_frame(fb, S), how, cols)])
         count += 1
         bad = check_frames(op, fa, fb, how, cols)
         if bad:
             yield Finding('violation', case, bad)
             continue
-        if op in ('add', 'mul'):       # theorems add_comm_frames / mul_comm_frames, reduce_left_frames
+        if op in ('add', 'mul') and cols in ('ij', 'oj'):       # theorems add_comm_frames / mul_comm_frames, reduce_left_frames
             f = _fn(op + '_')
             line = lambda a, b: '(ops binf %s %s %s %s N %s)' % (op, enc_in(a), enc_in(b), how, cols)
             res, rev = f(fa, fb, join=how, columns=cols), f(fb, fa, join=how, columns=cols)
@@ -623,6 +831,26 @@ def laws(rng, tier, ctx):
                 count += 1
                 if enc_out(lst) != enc_out(step):
                     yield Finding('violation', dict(tag='law-reduce-frames', lines=[line([fa, fb, fc], None)]), 'a list of frames is not reduced left to right')
+    # pow_, comparisons, min_ / max_ on frames (theorems powF_value, cmpF_value, mmF_two): default NaN, every column policy
+    for _ in range(n // 2):
+        name = rng.choice(['pow', 'gt', 'ge', 'lt', 'le', 'min', 'max'])
+        days, rel = rand_fdays(rng, 2)
+        cs, crel = rand_colsets(rng, 2)
+        fa = rand_frame(rng, days[0], POWB if name == 'pow' else VALS, cs[0])
+        fb = rand_frame(rng, days[1], POWE if name == 'pow' else VALS, cs[1])
+        how, cols = rng.choice(['ij', 'oj']), rng.choice(CHS)
+        line = ('(ops powf %s %s %s N %s)' % (enc_in(fa), enc_in(fb), how, cols) if name == 'pow' else
+                '(ops %s %s %s %s %s N %s)' % ('mmf' if name in ('min', 'max') else 'cmpf', name, enc_in(fa), enc_in(fb), how, cols))
+        count += 1
+        bad = check_frames_x(name, fa, fb, how, cols)
+        if bad:
+            yield Finding('violation', dict(tag='law-frames-x', lines=[line]), bad)
+            continue
+        if name in ('min', 'max'):     # np.minimum / np.maximum commute cell by cell (mmF_cell_comm); the header order is pandas' own
+            f = _fn(name + '_')
+            count += 1
+            if enc_out(f(fa, fb, join=how, columns=cols), True) != enc_out(f(fb, fa, join=how, columns=cols), True) and cols in ('ij', 'oj'):
+                yield Finding('violation', dict(tag='law-comm-mm', lines=[line]), '%s_ is not commutative on these frames' % name)
     # aggregates
     for _ in range(n // 2):
         g = rng.choice(['sum', 'mean', 'count'])
@@ -674,4 +902,4 @@ def laws(rng, tier, ctx):
 
 
 shrink = W.shrink
-MATCHERS = {'agg_mixed_operands': agg_mixed_operands}
+MATCHERS = {'agg_mixed_operands': agg_mixed_operands, 'mm_one_column_frames': mm_one_column_frames}
